@@ -71,23 +71,25 @@ impl UiTokenCollection {
         }
     }
 
+    /* start and end are character positions */
     #[allow(dead_code)]
     pub fn add(&mut self, start: usize, end: usize, ui_type: UiTokenType) {
-        if self.check_collision(start, end) {
+        if start < end && self.check_collision(start, end) {
             self.tokens.push(UiToken { start, end, ui_type })
         }
     }
 
     pub fn add_from_regex_match(&mut self, capture: Option<Match<'_>>, token_type: UiTokenType) {
         if let Some(content) = capture {
-            if content.start() < content.end() && self.check_collision(content.start(), content.end()) {
-                self.tokens.push(UiToken {
-                    start: self.get_position(content.start()),
-                    end: self.get_position(content.end()),
-                    ui_type: token_type
-                });
-            }
+            self.add_from_byte_range(content.start(), content.end(), token_type);
         }
+    }
+
+    /* start and end are byte offsets of the line; tokens are kept (and compared) in character positions */
+    pub fn add_from_byte_range(&mut self, start: usize, end: usize, token_type: UiTokenType) {
+        let start = self.get_position(start);
+        let end   = self.get_position(end);
+        self.add(start, end, token_type);
     }
 
     pub fn iter(&self) -> UiTokenIterator {
@@ -103,7 +105,8 @@ impl UiTokenCollection {
             Some(position) => *position,
             None => {
                 match self.char_sizes.len() == index {
-                    true => index,
+                    /* The end of the line: the number of characters, not of bytes */
+                    true => self.char_sizes.last().map(|position| position + 1).unwrap_or(0),
                     false => {
                         log::error!("{} not found in char map list, returned 0", index);
                         0
@@ -115,7 +118,7 @@ impl UiTokenCollection {
 
     fn check_collision(&self, start_position: usize, end_position: usize) -> bool {
         for item in self.iter() {
-            if (item.start <= start_position && item.end > start_position) || item.start < end_position && item.end >= end_position {
+            if item.start < end_position && start_position < item.end {
                 return false
             }
         }
@@ -131,28 +134,23 @@ impl UiTokenCollection {
         let ui_start_position   = self.get_position(position_start);
         let ui_end_position     = self.get_position(position_end);
 
-        let mut ui_start_index: i8  = -1;
-
-        for (index, ui_token) in self.iter().enumerate() {
-            if ui_token.start == ui_start_position {
-                ui_start_index = index as i8;
-                break;
-            }
+        if ui_start_position >= ui_end_position {
+            return;
         }
 
-        if ui_start_index > -1 {
-            for (index, ui_token) in self.tokens.iter().enumerate() {
-                if ui_token.end == ui_end_position {
-                    self.tokens.drain(ui_start_index as usize..index + 1);
-                    self.tokens.insert(ui_start_index as usize, UiToken {
-                        start: ui_start_position as usize,
-                        end: ui_end_position as usize,
-                        ui_type: new_type
-                    });
+        let ui_start_index = match self.tokens.iter().position(|ui_token| ui_token.start == ui_start_position) {
+            Some(index) => index,
+            None => return
+        };
 
-                    break;
-                }
-            }
+        /* The last token of the range is looked for from the first one onwards */
+        if let Some(offset) = self.tokens[ui_start_index..].iter().position(|ui_token| ui_token.end == ui_end_position) {
+            self.tokens.drain(ui_start_index..ui_start_index + offset + 1);
+            self.tokens.insert(ui_start_index, UiToken {
+                start: ui_start_position,
+                end: ui_end_position,
+                ui_type: new_type
+            });
         }
     }
 }
